@@ -80,8 +80,8 @@ class Ctx:
 
     def scale(self, quick, thorough):
         v = quick if self.tier == "quick" else thorough
-        if self.factor != 1.0 and isinstance(v, (int, float)) and not isinstance(v, bool):
-            return type(v)(max(1, v * self.factor)) if v else v
+        if self.factor != 1.0 and isinstance(v, (int, float)) and not isinstance(v, bool) and v >= 100:
+            return type(v)(max(1, v * self.factor))
         return v
 
     def mine(self, index):
